@@ -315,7 +315,10 @@ impl Report {
         self.stats.merge(out.stats);
         for v in out.violations {
             // trouble inside the harness or its environment is never reported as a violation
-            if v.failure.signature == "harness" || v.failure.signature == "infra" {
+            if v.failure.signature == "harness"
+                || v.failure.signature == "infra"
+                || v.failure.signature.starts_with("panic:harness/")
+            {
                 self.infra_errors
                     .push(format!("{}: {} (case {})", v.failure.signature, v.failure.what, v.case));
             } else {
